@@ -148,6 +148,10 @@ func genOddNode(r *Rng, name string) *WNode {
 	if r.chance(30) {
 		n.Annotations["a"] = r.pick("1", "", "x")
 	}
+	n.Unschedulable = r.chance(12)
+	if r.chance(6) {
+		n.ProviderID = r.pick("", "garbage")
+	}
 	if r.chance(20) {
 		n.Labels["zone"] = "z"
 	}
@@ -186,8 +190,8 @@ func runTaintOps(r *Rng, n int, w io.Writer, stats map[string]int) {
 		viewObj := wn.materialise(sec)
 		// the API copy may differ from the view (stale cache): taints changed meanwhile
 		api := wn.clone()
-		if r.chance(25) {
-			switch r.intn(3) {
+		if r.chance(30) {
+			switch r.intn(4) {
 			case 0:
 				api.Taints = append(api.Taints, WTaint{Key: escKey, Effect: "NoSchedule", Rel: true, Ago: 5})
 			case 1:
@@ -198,8 +202,10 @@ func runTaintOps(r *Rng, n int, w io.Writer, stats map[string]int) {
 					}
 				}
 				api.Taints = keep
-			default:
+			case 2:
 				api.Labels["late"] = "label"
+			default:
+				api.Unschedulable = !api.Unschedulable // cordoned (or uncordoned) since the cache saw it
 			}
 		}
 		ks.store = map[string]*v1.Node{}
@@ -384,6 +390,12 @@ func runResources(r *Rng, n int, w io.Writer, stats map[string]int) {
 		quantityForms = i%2 == 1
 		h := &Hist{r: r, stats: stats}
 		np, nn := r.rng(0, 7), r.rng(0, 6)
+		switch {
+		case i%400 == 199: // a long-lived, busy cluster: thousands of pods, hundreds of nodes
+			np, nn = r.pickI(501, 1000, 4001, 4100, 9000), r.pickI(6, 120, 600)
+		case i%50 == 25:
+			np, nn = r.rng(30, 300), r.rng(10, 60)
+		}
 		var pods []*v1.Pod
 		var nodes []*v1.Node
 		for k := 0; k < nn; k++ {
